@@ -31,6 +31,7 @@ def generate(tier, seed, casedir, variant):
         if base["validation"]["own_obs_gen"]:
             base["obs_gen"] = True
             base["validation"]["nan_obs"] = (j % 3 == 0)
+            base["validation"]["huge_obs"] = (j % 3 == 1)
         cfgs.append(base)
     r = run_all(cfgs, casedir, variant, "C19")
     r["rule"] = ("scripted validation modules: outcome scripts (stop request, improvement flag) of length %d (all %d of them in the thorough tier), periods 1..3; built-in ValidationLoss with its own data / parameter / observation generators (some validation observations not numbers, so that some criteria are NaN), "
